@@ -208,11 +208,13 @@ pub fn build(h: &Hist) -> Vec<Report> {
                 mine.push(d);
             }
         }
-        // local swaps between neighbours less than 1.5 s apart
+        // swaps between neighbours: the two frames are delivered in swapped order with their own (truthful)
+        // timestamps across any gap; their timestamps are exchanged only when they are less than 1.5 s apart
         let mut i = 0;
         while i + 1 < mine.len() {
             let op = p.ops.get((i * 5 + 1) % p.ops.len().max(1)).copied().unwrap_or(0);
-            if op & 0x80 != 0 && op & 0x08 != 0 && (mine[i + 1].ts - mine[i].ts).abs() < 1.5 {
+            let near = (mine[i + 1].ts - mine[i].ts).abs() < 1.5;
+            if op & 0x80 != 0 && op & 0x08 != 0 && (near || op & 0x04 != 0) {
                 if op & 0x04 != 0 {
                     // arrival order swapped, timestamps travel with the frames
                     let (a, b) = (mine[i].arrival, mine[i + 1].arrival);
